@@ -904,6 +904,19 @@ class Unit:
             if self.models:
                 r = self.models.placement_new(self, n)
                 if r is not None: return r
+            # new (p) T(args) of a record of the unit, p a plain variable: the constructor runs on the storage p points to
+            ce = None; place = []
+            for c in ks:
+                if self.strip_tmp(c)['kind'] == 'CXXConstructExpr': ce = self.strip_tmp(c)
+                else: place.append(c)
+            if ce is not None and len(place) == 1 and elem.startswith('struct '):
+                pv = self.strip(place[0])
+                while pv.get('kind') in ('ImplicitCastExpr', 'CStyleCastExpr', 'CXXStaticCastExpr', 'CXXReinterpretCastExpr') and self.kids(pv): pv = self.strip(self.kids(pv)[0])
+                if pv.get('kind') == 'DeclRefExpr':
+                    ptxt = self.expr(pv)
+                    ctor = self.ctor_call_name(ce)
+                    args = self.call_args(self.ctor_type(ce), self.kids(ce))
+                    return '(%s(%s), (%s)%s)' % (ctor, ', '.join(['(%s)%s' % (ct, ptxt)] + args), ct, ptxt)
             raise Unsupported('placement new (in %s)' % self.cur)
         if n.get('isArray'):
             return '((%s)v_new_array(sizeof(%s), %s))' % (ct, elem, self.expr(ks[0]))
